@@ -336,8 +336,10 @@ def finish(ctx, level, extra_cov=None, rule=None):
     }
     if ctx.notes:
         ev["coverage"]["notes"] = ctx.notes
-    os.makedirs(os.path.join(VERIF, "evidence"), exist_ok=True)
-    json.dump(ev, open(os.path.join(VERIF, "evidence", ctx.pid + ".json"), "w"), indent=1)
+    # evidence describes runs against /repo itself; self-test runs against a scratch tree (VERIF_REPO) write elsewhere
+    evdir = os.path.join(VERIF, "evidence") if "VERIF_REPO" not in os.environ else os.path.join(OUT, "evidence-scratch")
+    os.makedirs(evdir, exist_ok=True)
+    json.dump(ev, open(os.path.join(evdir, ctx.pid + ".json"), "w"), indent=1)
     for k in ctx.known:
         print(k)
     for v in ctx.violations[:12]:
